@@ -128,20 +128,20 @@ def _has_typevar_call(node):
 
 def proj_target(t):
   if isinstance(t, ast.Name):
-    return ("mkT", ("KName",), _opt(_path([t.id])), 0)
+    return ("TName", Nm(t.id))
   fn = _full_name(t)
   name = _opt(_path(fn) if fn is not None else None)
   if isinstance(t, ast.Attribute):
-    return ("mkT", ("KAttr",), name, Op(_dump(t)))
+    return ("TOther", ("KAttr",), name, Op(_dump(t)))
   if isinstance(t, ast.Subscript):
-    return ("mkT", ("KSub",), name, Op(_dump(t)))
+    return ("TOther", ("KSub",), name, Op(_dump(t)))
   if isinstance(t, (ast.Tuple, ast.List)):
     elts = []
     for el in t.elts:
       v = el.value if isinstance(el, ast.Starred) else el
       f = _full_name(v)
       elts.append(_opt(_path(f) if f is not None else None))
-    return ("mkT", ("KTuple", tuple(elts)), ("None",), Op(_dump(t)))
+    return ("TOther", ("KTuple", tuple(elts)), ("None",), Op(_dump(t)))
   raise NotExplorable("assignment target " + type(t).__name__)
 
 
@@ -354,10 +354,11 @@ def ser_value(v, out):
 
 
 def ser_target(t, out):
+  if t[0] == "TName":
+    out += [0, t[1]]
+    return
   k = t[1]
-  if k[0] == "KName":
-    out.append(0)
-  elif k[0] == "KAttr":
+  if k[0] == "KAttr":
     out.append(1)
   elif k[0] == "KSub":
     out.append(2)
